@@ -10,6 +10,7 @@ MANIFEST = {
     'text': 'partial: Lean theorems for the read-ahead/consume window of archive_read.c under truncation and callback '
             'faults (error, end-of-file, short or failing skip at any invocation): what is delivered is a prefix of the '
             'intact stream, errors are sticky. Tied to the C by the rda engine with fault scripts.',
+    'technique': 'Lean 4 proof (prefix monotonicity over client programs, fault absorption) + model/C differential correspondence with fault scripts',
     'note': 'Unmodelled format parsers are covered only through the interface contract; see DESIGN.md C08.',
 }
 ENGINES = [Rda(faults=True)]
